@@ -15,6 +15,11 @@ class Prop(PropBase):
     ALL_EXHAUSTIVE = True
     ASSUMPTIONS = ["the designator standard is the xterm ctlseqs / VT220-VT320 SCS table transcribed in Tpp.Ref.Designators, plus 'U' for the SCO/PC set"]
 
+    @classmethod
+    def verdict_concerns(cls, v):
+        # the markup cases of this check are all about `\\c` designators; the markup oracle tags its verdicts C10
+        return (" C18" in " " + v) or v.startswith("FAIL C10")
+
     @staticmethod
     def cases(tier, rng):
         cs = []
@@ -33,6 +38,14 @@ class Prop(PropBase):
         else:
             for _ in range(3000):
                 cs.append(Case("D 2 %d %d" % (rng.randrange(256), rng.randrange(256)), oracle=False, tag="random-2byte"))
+        # the designators as the attribute markup spells them (`\\c<designator>`): each alone, and every ordered pair inside ONE
+        # element (the second one wins) - judged by the markup oracle, whose verdicts on these lines concern C18
+        from . import markup_gen as MG
+        nd = len(MG.DESIGNATORS)
+        for i in range(nd):
+            cs.append(MG.spelling_case("E", [[MG.d_charset(i), MG.g_lit(0x71)], [MG.g_lit(0x62)]], sweep="markup-designators"))
+            for j in range(nd):
+                cs.append(MG.spelling_case("E", [[MG.d_charset(i), MG.d_charset(j), MG.g_lit(0x71)], [MG.g_lit(0x62)]], sweep="markup-designator-pairs"))
         # the designators as a terminal receives them: every ordered pair of character sets (UTF-8 included) written
         # through a real terminal, both values of unicode_in_all_charsets; the reference terminal must end up with the
         # second set designated and show both glyphs in their own sets
